@@ -1,5 +1,7 @@
 import EgVerif.Model.LoadBalance
 import EgVerif.Gen.FactsC04IR
+import EgVerif.Gen.FactsC04IRb
+import EgVerif.Gen.FactsC04IRp
 /-!
 Regenerated tie by translation for C04 (`notes/IR.md`): the `…IR` definitions of `Gen.FactsC04IR` are
 produced on every run by the go/ast micro-translator (`harness/factextract/irlib.go`) from the current
@@ -83,5 +85,104 @@ theorem validate_regenerated_from_source (sps : PoolSpec) : validateIR sps = val
   generalize sps.servers.length = n
   by_cases h1 : sps.serviceName = "" <;> by_cases h2 : n = 0 <;> by_cases h3 : g > 0 <;>
     by_cases h4 : g < n <;> simp [h1, h2, h3, h4] <;> omega
+
+/-! ### second part (Extension resil): constructors, `NewLoadBalancer`, `createLoadBalancer`,
+`LoadBalancer()`, `useService` — `Gen.FactsC04IRb` -/
+open EgVerif.Gen.FactsC04IRb EgVerif.Gen.FactsC04IRp
+
+/-- **`NewLoadBalancer`, regenerated from the source, is the model's policy dispatch** (`""` and unknown
+names ⇒ round robin). -/
+theorem newLoadBalancer_regenerated_from_source (policy : String) (ss : List Server) :
+    newLoadBalancerIR policy ss = newLB policy ss := by
+  unfold newLoadBalancerIR newLB Policy.ofString
+  by_cases h1 : policy = "roundRobin" <;> by_cases h2 : policy = "" <;> by_cases h3 : policy = "random" <;>
+    by_cases h4 : policy = "weightedRandom" <;> by_cases h5 : policy = "ipHash" <;>
+    by_cases h6 : policy = "headerHash" <;> simp [h1, h2, h3, h4, h5, h6]
+
+/-- the four plain constructors store the list they are given (and have no total weight) -/
+theorem newPlain_regenerated_from_source (ss : List Server) :
+    newRandomIR ss = (ss, 0) ∧ newRoundRobinIR ss = (ss, 0) ∧ newIPHashIR ss = (ss, 0) ∧
+      newHeaderHashIR ss = (ss, 0) := ⟨rfl, rfl, rfl, rfl⟩
+
+theorem newWeighted_regenerated_from_source_loop (ss lb l : List Server) (tw : Int) :
+    newWeightedIR_loop1 ss tw lb l = .inr (tw + totalWeight l) := by
+  induction l generalizing tw with
+  | nil => simp [newWeightedIR_loop1, totalWeight]
+  | cons s t ih =>
+    simp only [newWeightedIR_loop1, totalWeight, ih, decide_eq_true_eq]
+    split <;> simp <;> omega
+
+/-- **`newWeightedRandomLoadBalancer`, regenerated from the source**: stores the list it is given and
+sums the positive weights only (the repaired constructor). -/
+theorem newWeighted_regenerated_from_source (ss : List Server) :
+    newWeightedIR ss = (ss, totalWeight ss) := by
+  simp [newWeightedIR, newWeighted_regenerated_from_source_loop]
+
+theorem createLoadBalancer_regenerated_from_source_loop (lbspec : Option String) (ss l : List Server)
+    (pub : Option LB) : createLoadBalancerIR_loop1 lbspec ss pub l = .inr () := by
+  induction l with
+  | nil => rfl
+  | cons s t ih => simpa [createLoadBalancerIR_loop1] using ih
+
+/-- **`createLoadBalancer`, regenerated from the source**: exactly one balancer is published, built by
+`NewLoadBalancer` from the pool's load-balance spec (nil ⇒ the empty spec ⇒ round robin) and the list it
+was handed — a fresh value with counter 0 (`step (.store ss)`). -/
+theorem createLoadBalancer_regenerated_from_source (lbspec : Option String) (ss : List Server) :
+    createLoadBalancerIR lbspec ss = some (newLB (lbspec.getD "") ss) := by
+  simp only [createLoadBalancerIR, createLoadBalancer_regenerated_from_source_loop]
+  cases lbspec <;> simp
+
+/-- `LoadBalancer()` returns the value of its single atomic load -/
+theorem loadBalancer_regenerated_from_source (current : LB) : loadBalancerIR current = current := rfl
+
+/-- the inner loop of `useService` (over the pool's tags, with `break`) -/
+theorem useService_regenerated_from_source_loop2 (srt : List Server → List Server) (sps : PoolSpec)
+    (insts : List Instance) (pub servers : List Server) (i : Instance) (tags : List String) :
+    useServiceIR_loop2 srt sps insts pub servers i tags =
+      .inr (if tags.any (fun t => i.tags.contains t) then servers ++ [(⟨i.url, i.weight, i.tags⟩ : Server)]
+            else servers) := by
+  induction tags with
+  | nil => simp [useServiceIR_loop2]
+  | cons t r ih =>
+    have hany : ((t :: r).any fun t => i.tags.contains t) =
+        (i.tags.contains t || r.any fun t => i.tags.contains t) := List.any_cons
+    simp only [useServiceIR_loop2]
+    by_cases h : i.tags.contains t = true
+    · rw [if_pos h, if_pos (by rw [hany, h]; rfl)]
+    · rw [if_neg h, ih]
+      simp only [Bool.not_eq_true] at h
+      by_cases h2 : (r.any fun t => i.tags.contains t) = true
+      · rw [if_pos h2, if_pos (by rw [hany, h, h2]; rfl)]
+      · rw [if_neg h2, if_neg (by rw [hany, h]; simpa using h2)]
+
+theorem useService_regenerated_from_source_loop1 (srt : List Server → List Server) (sps : PoolSpec)
+    (insts : List Instance) (pub : List Server) (l : List Instance) (servers : List Server) :
+    useServiceIR_loop1 srt sps insts pub servers l =
+      .inr (servers ++ l.filterMap (fun i =>
+        if qualifies sps.serverTags i then some (⟨i.url, i.weight, i.tags⟩ : Server) else none)) := by
+  induction l generalizing servers with
+  | nil => simp [useServiceIR_loop1]
+  | cons i r ih =>
+    simp only [useServiceIR_loop1, useService_regenerated_from_source_loop2, ih, List.filterMap_cons]
+    have hq : (sps.serverTags.any fun t => i.tags.contains t) = qualifies sps.serverTags i := rfl
+    rw [hq]
+    cases qualifies sps.serverTags i <;> simp
+
+/-- **`useService`, regenerated from the source, is the model's `useService`** — up to the order of the
+list (`srt` stands for a re-ordering such as a `sort.Slice`, should the code contain one; today it does
+not and the two sides are equal): the tagged instances (each at most once: `break`), the static list
+when none qualifies; that list is what `createLoadBalancer` receives, unconditionally. -/
+theorem useService_regenerated_from_source (srt : List Server → List Server) (hsrt : ∀ l, (srt l).Perm l)
+    (sps : PoolSpec) (insts : List Instance) :
+    (useServiceIR srt sps insts).Perm (useService sps insts) := by
+  simp only [useServiceIR, useService, useService_regenerated_from_source_loop1, List.nil_append]
+  generalize (insts.filterMap _) = l
+  cases l with
+  | nil => simp
+  | cons a t =>
+    have h1 : (((a :: t).length : Int) == 0) = false := by simp; omega
+    have h2 : ¬ (a :: t).length = 0 := by simp
+    simp only [h1, h2, Bool.false_eq_true, if_false]
+    first | exact List.Perm.refl _ | exact hsrt _
 
 end EgVerif.LoadBalance
